@@ -203,6 +203,18 @@ var uidPalette = []string{"u1", "u2", "u3", ""}
 
 func pick(r *rand.Rand, l []string) string { return l[r.Intn(len(l))] }
 
+// ReservationKey: what an administrator writes into spec.key of a labelled FloatingIP — usually a descriptive key, but
+// only the label is required: the key may be EMPTY, and nothing stops it from being equal to a pod's key.
+func ReservationKey(r *rand.Rand) string {
+	switch x := r.Intn(10); {
+	case x < 5:
+		return "pool__reserved-for-node_"
+	case x < 8:
+		return ""
+	}
+	return keyPalette[r.Intn(5)]
+}
+
 // View is what the generator looks at to produce mostly-meaningful arguments.
 type View struct {
 	Pools []PoolInfo
@@ -402,7 +414,7 @@ func GenOp(r *rand.Rand, v View, faultPct int) Op {
 		}
 		op.Conf = GenConf(r)
 	case x < 92:
-		op = Op{Kind: "admres", IP: v.ReservableIP(r), Key: "pool__reserved-for-node_", Policy: r.Intn(3), Plan: NoPlan()}
+		op = Op{Kind: "admres", IP: v.ReservableIP(r), Key: ReservationKey(r), Policy: r.Intn(3), Plan: NoPlan()}
 	case x < 95:
 		op = Op{Kind: "admunres", IP: v.anyIP(r), Plan: NoPlan()}
 		for _, ip := range sortedIPs(v.Store) {
